@@ -3,7 +3,8 @@
 import json, sys
 pid = sys.argv[1]
 n = int(sys.argv[2]) if len(sys.argv) > 2 else 3
-wt = f'/tmp/wt/{pid}'
+tag = sys.argv[3] if len(sys.argv) > 3 else pid
+wt = f'/tmp/wt/{tag}'
 p = next(json.loads(l) for l in open('/verif/properties.jsonl') if json.loads(l)['id'] == pid)
 print(f"""You are working in a scratch git worktree of the google/fiddle Python library at {wt}.
 Work ONLY inside {wt}. Do not read, list or touch /verif, and do not modify /repo.
@@ -45,3 +46,13 @@ with the patch applied equals the baseline (1061 passed, the same single failure
 and passes without it. Discard candidates that any existing test catches and try another one.
 Finish with a short summary listing, per change, the file/function changed, what is needed to trigger it, and the
 verification results.""")
+if len(sys.argv) > 3:
+  import glob, os
+  prior = []
+  for d in sorted(glob.glob(f'/verif/seeded/{pid}-*')):
+    m = json.load(open(os.path.join(d, 'meta.json')))
+    what = (m.get('breaks') or m.get('what_it_breaks') or '').replace('\n', ' ')[:260]
+    prior.append(f"  - {', '.join(m.get('files_changed', []))}: {what}")
+  if prior:
+    print('\nAn earlier round already produced the following changes; yours must be of a DIFFERENT kind, in different '
+          'functions or clauses of the property:\n' + '\n'.join(prior))
